@@ -69,10 +69,12 @@ func (d *distStub) ServeHTTP(w http.ResponseWriter, r *http.Request) {
 		w.WriteHeader(200)
 	case "201":
 		w.WriteHeader(201)
-	case "404":
+	case "404": // refusals carry a body, as real services' do
 		w.WriteHeader(404)
+		io.WriteString(w, "no such log is known to this distributor\n")
 	case "500":
 		w.WriteHeader(500)
+		io.WriteString(w, strings.Repeat("internal error detail ", 40))
 	case "redir307":
 		http.Redirect(w, r, "/redirected"+r.RequestURI, http.StatusTemporaryRedirect)
 	case "redir302":
@@ -123,6 +125,13 @@ func scenarioDist(t *traceWriter, rng *rand.Rand) {
 		// a per-request timeout of the HTTP client (cmd/omniwitness --http_timeout): a distributor that stalls on one
 		// log costs that log its push, nothing else
 		client := &http.Client{Timeout: 400 * time.Millisecond}
+		if ci%2 == 0 {
+			// a bounded connection pool, kept for the Distributor's whole life: an answer whose body is never closed
+			// keeps its connection, and after two of those nothing more can be sent
+			tp := &http.Transport{MaxConnsPerHost: 2}
+			defer tp.CloseIdleConnections()
+			client.Transport = tp
+		}
 		d, err := rest.NewDistributor(srv.URL, client, logs, wrv, dw)
 		if err != nil {
 			panic(err)
